@@ -275,11 +275,18 @@ Tagged(c) == IF c.k = "atom" THEN c
                   THEN C("slice", "", 0, <<Tagged(c.items[1]), Tagged(c.items[2]),
                                            IF c.items[3] = Atom("None") THEN TagAtom ELSE Tagged(c.items[3])>>)
              ELSE C(c.k, c.a, c.m, [i \in 1..Len(c.items) |-> Tagged(c.items[i])] \o <<TagAtom>>)
-TaggingLemma == /\ Len(hist) >= 1 /\ Mode # "real" => Alone(Tagged(A), FALSE) = Tagged(Alone(A, FALSE))
-                /\ Pair => /\ Shared(Tagged(A), Tagged(B)) = Shared(A, B)
+\* (0, 0) == (0,) * 2, but (0, 0, T) # (0, T) * 2: where such an equality decides which member a frozenset
+\* keeps, tagging changes the value; these constants are replayed in plain form only
+RECURSIVE RepeatInFset(_, _)
+RepeatInFset(c, inside) == IF c.k = "atom" THEN FALSE
+                           ELSE (inside /\ c.m = 2) \/ \E i \in 1..Len(c.items) : RepeatInFset(c.items[i], inside \/ c.k = "fset")
+Taggable(a, b) == ~RepeatInFset(a, FALSE) /\ ~RepeatInFset(b, FALSE)
+TaggingLemma == /\ Len(hist) >= 1 /\ Mode # "real" /\ Taggable(A, A) => Alone(Tagged(A), FALSE) = Tagged(Alone(A, FALSE))
+                /\ Pair /\ Taggable(A, B) =>
+                           /\ Shared(Tagged(A), Tagged(B)) = Shared(A, B)
                            /\ After(Tagged(A), Tagged(B), FALSE) = Tagged(After(A, B, FALSE))
                            /\ Cause(Tagged(B), After(Tagged(A), Tagged(B), FALSE)) = Cause(B, After(A, B, FALSE))
-                           /\ ~PyEq(A, B) => ~PyEq(Tagged(A), Tagged(B))    \* (but (0, 0) == (0,) * 2 while (0, 0, T) # (0, T) * 2)
+                           /\ ~PyEq(A, B) => ~PyEq(Tagged(A), Tagged(B))
 
 (* near misses: constants that Python does NOT consider equal although they are built alike -- the same  *)
 (* items in another container or with another repeat factor, or one item of another value.  They must    *)
@@ -303,7 +310,7 @@ PublishConst == (Dump /\ Mode # "real" /\ Len(hist) = 1) =>
 PublishPair == (Dump /\ Pair /\ (Shared(A, B) \/ PyEq(A, B) \/ Near(A, B))) =>
                   LET r == After(A, B, FALSE) hz == ~ObsEq(r, B) IN
                   PrintT("@@" \o ToJson([a |-> A, b |-> B, shared |-> Shared(A, B), obseq |-> ObsEq(A, B),
-                                          cause |-> Cause(B, r), near |-> Near(A, B),
+                                          cause |-> Cause(B, r), near |-> Near(A, B), taggable |-> Taggable(A, B),
                                           fixed_ok |-> ObsEq(After(A, B, TRUE), B),
                                           ret |-> IF hz THEN Obs(r) ELSE Atom("None"),
                                           tret |-> IF hz THEN Obs(After(Tagged(A), Tagged(B), FALSE)) ELSE Atom("None")]))
